@@ -83,7 +83,7 @@ def case_unique(ctx, p):
     tr.reset()
     tr.on = True
     try:
-        U = mod.genhkl_unique(c["cell"], c["smin"], c["smax"], output_stl=True, **kw)
+        U = mod.genhkl_unique(c["held"], c["smin"], c["smax"], output_stl=True, **kw)
     except Exception as exc:
         mon.check(name, False, observed=repr(exc), detail=where)
         return
@@ -118,7 +118,7 @@ def case_unique(ctx, p):
     name = "history:genhkl_all is the union of the families of genhkl_unique"
     np.random.seed(int(c["rng"].integers(0, 2 ** 31)))
     try:
-        A = mod.genhkl_all(c["cell"], c["smin"], c["smax"], output_stl=True, **kw)
+        A = mod.genhkl_all(c["held"], c["smin"], c["smax"], output_stl=True, **kw)
     except Exception as exc:
         mon.check(name, False, observed=repr(exc), detail=where)
         return
@@ -139,7 +139,8 @@ def case_unique(ctx, p):
     # --- output_stl False ------------------------------------------------------------------------------------------------------------
     name = "history:output_stl=False gives the same rows without column 4"
     try:
-        U3 = np.asarray(mod.genhkl_unique(c["cell"], c["smin"], c["smax"], **kw), float)
+        U3 = np.asarray(mod.genhkl_unique(c["held"], c["smin"], c["smax"], **kw), float)
+        c05.cell_untouched(ctx, c, "%s.genhkl_unique / genhkl_all" % m)
         ok = U3.shape == (len(U), 3) and bool(np.array_equal(U3, U[:, :3]))
         mon.check(name, ok, observed=None if ok else U3.shape, expected=None if ok else (len(U), 3), detail=None if ok else where)
     except Exception as exc:
@@ -156,7 +157,7 @@ def case_unique(ctx, p):
             tr.reset()
             tr.on = True
             try:
-                upto = mod.genhkl_unique(c["cell"], c["smin"], s_i, output_stl=True, **kw)
+                upto = mod.genhkl_unique(c["held"], c["smin"], s_i, output_stl=True, **kw)
             finally:
                 tr.on = False
             tu, _ = c05.rows_to_tuples(upto)
@@ -169,7 +170,7 @@ def case_unique(ctx, p):
                     finding = FINDING
             mon.check(name, inc, observed=None if inc else "row %s (sintl %r) not returned with sintlmax = %r" % (h, s_i, s_i),
                       detail=None if inc else where, finding=finding)
-            frm = mod.genhkl_unique(c["cell"], s_i, c["smax"], output_stl=True, **kw)
+            frm = mod.genhkl_unique(c["held"], s_i, c["smax"], output_stl=True, **kw)
             tf, _ = c05.rows_to_tuples(frm)
             exc = tf is not None and not any(q in fam for q in tf)
             mon.check(name, exc, observed=None if exc else "row %s (sintl %r) still returned with sintlmin = %r" % (h, s_i, s_i),
